@@ -60,3 +60,33 @@ package localfs
 //@   ensures[C20] @new-pairs-are-inserted-atomically !likelyOK(uint64(stat.Dev), stat.Ino) && !old(smhas(qids, keyOf(uint64(stat.Dev), stat.Ino))) ==> ncalls("(*sync.Map).LoadOrStore") == 1
 //@   ensures[C20] @other-pairs-untouched forall(k, any, k != keyOf(uint64(stat.Dev), stat.Ino) ==> smhas(qids, k) == old(smhas(qids, k)) && smget(qids, k) == old(smget(qids, k)))
 //@   maypanic
+
+// ---- C19: one page of a local directory ---------------------------------------
+//
+// The directory stream of l.file is modelled by the assumed contracts of
+// os.File.Seek / Readdirnames in /verif/contracts/assumed.spec (ghost cursor
+// $dirpos, entries dirName(l.file, k), k < dirLen(l.file)). The offset cookie
+// of an entry is its index + 1, so resuming at the Offset of the last entry
+// received continues with the next one; a page holds at most count entries
+// (the server cuts the reply to the requested byte count, rreaddir.encode).
+//@ func (*Local).info
+//@   abstract
+//@   modifies $sm.G.localfs.qids.dom, $sm.G.localfs.qids.val, $au.G.localfs.nextQid
+//@   maypanic
+//
+//@ func (*Local).Readdir
+//@   requires[C19] l.file != nil
+//@   modifies *
+//@   at (*Local).info requires[C19] @stats-the-listed-entry-itself recv.path == ghost("$joined", string) && recv.file == nil
+//@   ensures[C19] @at-most-count-entries result1 == nil ==> len(result0) <= int(count)
+//@   ensures[C19] @page-is-the-next-slice-of-the-directory result1 == nil ==> forall(j, 0, len(result0), result0[j].Name == dirName(l.file, int(offset) + j))
+//@   ensures[C19] @cookie-is-index-plus-one result1 == nil ==> forall(j, 0, len(result0), result0[j].Offset == offset + uint64(j) + 1)
+//@   ensures[C19] @page-is-full-or-the-directory-ended result1 == nil && offset <= uint64(dirLen(l.file)) ==> len(result0) == int(count) || int(offset) + len(result0) == dirLen(l.file)
+//@   ensures[C19] @type-is-the-qid-type result1 == nil ==> forall(j, 0, len(result0), result0[j].Type == result0[j].QID.Type)
+//@   loop 0 invariant[C19] cursor == uint64(ghost("$dirpos", int)) && ghost("$dirpos", int) >= 0 && ghost("$dirpos", int) <= dirLen(l.file) && dirLen(l.file) <= 1000000000 && offset <= 1000000000
+//@   loop 0 invariant[C19] len(p9Ents) <= int(count) && (cursor <= offset ==> len(p9Ents) == 0) && (cursor > offset ==> len(p9Ents) == int(cursor - offset))
+//@   loop 0 invariant[C19] forall(j, 0, len(p9Ents), p9Ents[j].Name == dirName(l.file, int(offset) + j))
+//@   loop 0 invariant[C19] forall(j, 0, len(p9Ents), p9Ents[j].Offset == offset + uint64(j) + 1)
+//@   loop 0 invariant[C19] forall(j, 0, len(p9Ents), p9Ents[j].Type == p9Ents[j].QID.Type)
+//@   requires[C19] @directory-and-cookie-fit 0 <= dirLen(l.file) && dirLen(l.file) <= 1000000000 && offset <= 1000000000
+//@   maypanic
